@@ -32,6 +32,12 @@ CLAIMS = {
    note=TB + 'Not decided: split/join/replace/trim as sequence functions, search (strstr/strchr are libc), printf-style formatting, float text, '
         'integer value round trip (SAT does not finish on divide/multiply chains; only canonical decimal form and capacity are proved), unsigned/ULong constructors (snprintf).',
    technique='CBMC code contracts (DFCC) on extracted function bodies, ghost-index postconditions'),
+ 'C04': dict(level='other', design='6 C04',
+   text='Var::operator=(const String&) for every scalar/string target and every string up to 12 characters (the 7/8 inline boundary: the 8-byte inline buffer is never overrun, the Var holds exactly the bytes); '
+        'Var::operator== on strings for every combination of inline / heap representation (only the text matters, a string never equals a non-string); Var::operator=(const Var&) with the source an element of the target array '
+        '(no read of released storage, target equals the entry value, one reference dropped).',
+   note=TB + 'Level other: all units are bounded (text lengths, 2-element arrays). Containers inside the Var are the C01 Array contracts executed as stubs. Not decided: numeric == lattice, Dic payloads, clone depth, operator[] auto-vivification, conversions through atof.',
+   technique='CBMC code contracts (DFCC) on extracted Var member functions with container contracts as stubs'),
  'C05': dict(level='proof', design='6 C05',
    text='Per-value lemmas between the extracted encoder and decoder code: for EVERY byte 1..255, inside a string value and inside a quoted object key, the characters XdlEncoder::new_string writes are legal strict-JSON string text (RFC 8259 char production) '
         'and the decoder steps turn them back into exactly that byte without leaving the string, rejecting or opening a comment; every JSON two-character escape decodes to its character; '
